@@ -30,6 +30,18 @@ T = {
  "C13-2": ("C13", "CallRef de-duplicated per script name, later call sites stay unbound", "the same callee used from two call sites and a run taking the second", ["C13"], ""),
  "C14-1": ("C14", "scripts reached through use() no longer receive the signal", "signal first true while control is inside a use()d script", ["C14"], ""),
  "C14-2": ("C14", "v2 for loop merges break/continue/exit checks into one if/else-if chain", "v2 three-clause for whose body executes continue, signal first true at the poll after the continue", ["C14"], ""),
+ "C15-1": ("C15", "pooled v1 task keeps its root stack frame (StackClear instead of zeroing)", "a run that assigns top-level variables and fails inside an if/for body, then a run on the recycled task reading one of those names unbound", ["C15","C13"], ""),
+ "C15-2": ("C15", "process-wide cache of compiled grok expressions keyed by pattern text with a current-frame-only guard", "a grok inside a nested block under an outer add_pattern redefining a global pattern name, and another script with the identical expression text loaded in the same process", ["C15","C12"], "missed at first: baselines were computed in the same process, after other operations had filled the cache; baselines now come from fresh subprocesses and load-and-run operations were added"),
+ "C16-1": ("C16", "parse cache keyed by source text shares AST nodes between separate loads", "a loaded script with use() kept running while another set is loaded in which one file has the same text but the used script differs", ["C16","C15"], "C16: race-detector pass (engine.dfs writes PrivateData of shared nodes) via the new load(other set) operation; C15: run of a loaded script after loading another deployment with the same entry text"),
+ "C16-2": ("C16", "replace() memoises its compiled regexp in the shared CallExpr at run time", "first executions of a freshly loaded script by two goroutines at once (values never differ)", ["C16"], "caught by the shared-write invariant (first execution of run(all.p) changes script:all.p); the demonstration needs go test -race"),
+ "C17-1": ("C17", "PlError.Copy becomes a shallow copy", "a stored error whose chain has spare capacity, appended to from two copies", ["C17","C09"], ""),
+ "C17-2": ("C17", "columns counted in characters instead of bytes (both lookup routines alike)", "a multi-byte rune earlier on the same line", ["C17"], "caught by the independent byte-column scan; the two routines still agree with each other"),
+ "C18-1": ("C18", "tuple assignment keeps the register slice of a multi-value call instead of copying it", "a multi-assignment whose first right-hand expression is a multi-value call followed by another expression", ["C18"], ""),
+ "C18-2": ("C18", "short-circuit test folded into one condition that also fires for comparison operators", "a comparison whose left operand is the boolean false", ["C18"], ""),
+ "C19-1": ("C19", "missing-required scan only when the call has fewer arguments than required parameters", "named arguments to optional parameters while a required one is omitted: f(b=2) against (a, b=10, c=20)", ["C19"], ""),
+ "C19-2": ("C19", "variadic-must-be-last hoisted out of the loop, only-one-variadic branch deleted", "a parameter list with two or more variadic parameters ending in a variadic one", ["C19"], ""),
+ "C20-1": ("C20", "-w \"\" resolved through filepath.Abs: single-file mode silently becomes workspace mode", "single-file mode with a script that use()s a sibling present in the same directory", ["C20"], ""),
+ "C20-2": ("C20", "line-protocol input cut at the first newline before parsing", "input whose first point is not entirely on the first line: leading comment/blank line, or a newline inside a string field", ["C20"], "missed at first; inputs with a leading comment and with a newline inside a string field were added"),
 }
 for sid, (prop, what, needs, detected, hist) in T.items():
     d = f"/verif/seeded/{sid}"
